@@ -64,8 +64,9 @@ def matrix(seg):
     return [seg.get_seg_id(), m]
 
 
-def read_all(src, bufsize=None):
-    """-> list of (matrix, errors, formatted) or raises"""
+def read_all(src, bufsize=None, resume_at=None):
+    """-> list of (matrix, errors, formatted) or raises.  resume_at=k: leave the loop after k segments and go on
+    with a second loop over the same reader (the stream must simply continue)"""
     import pyx12.x12file, pyx12.rawx12file
     old = pyx12.rawx12file.DEFAULT_BUFSIZE
     if bufsize:
@@ -73,6 +74,12 @@ def read_all(src, bufsize=None):
     try:
         rd = pyx12.x12file.X12Reader(src)
         out = []
+        if resume_at:
+            for seg in rd:
+                errs = rd.pop_errors()
+                out.append((matrix(seg), [(e[0], e[1]) for e in errs], seg.format()))
+                if len(out) >= resume_at:
+                    break
         for seg in rd:
             errs = rd.pop_errors()
             out.append((matrix(seg), [(e[0], e[1]) for e in errs], seg.format()))
@@ -126,8 +133,15 @@ def reread_ok(text, got):
     return []
 
 
-def run_one(text, bufsize, prefix=None, policy=None, kind='stringio', tag=None):
+def run_one(text, bufsize, prefix=None, policy=None, kind='stringio', tag=None, resume_at=None):
     """one execution -> (violations or None, ctx)"""
+    if resume_at:
+        try:
+            got = read_all(io.StringIO(text), bufsize, resume_at)
+        except Exception as e:
+            return [('C01|resume|raises %s@%s' % (type(e).__name__, core.where(e)), 'text=%r, loop left after %d segments and resumed: %r' % (text[106:], resume_at, e))], None
+        v = judge(text, got, 'resume')
+        return v, None
     ctx = core.Ctx(prefix or [])
     tag = 'reader'
     tmp = None
@@ -163,7 +177,7 @@ def run_one(text, bufsize, prefix=None, policy=None, kind='stringio', tag=None):
 
 
 def evaluate(case):
-    v, _ = run_one(case['text'], case.get('bufsize'), case.get('choices'), case.get('policy'), case.get('kind', 'stringio'))
+    v, _ = run_one(case['text'], case.get('bufsize'), case.get('choices'), case.get('policy'), case.get('kind', 'stringio'), resume_at=case.get('resume_at'))
     return v or []
 
 
@@ -254,6 +268,27 @@ def work_windows(shard):
                 P.bad(k, {'text': text, 'policy': pol}, msg[:300])
         # long segment (> one buffer) is part of every window document (the padding segment)
     P.sample({'window_doc_len': len(text), 'policies': ['default', 'short1', 'half']}, cap=1)
+    return P
+
+
+def work_resume(shard):
+    """every body, every point k at which the consumer leaves its loop and starts another one on the same reader"""
+    d, icvn, first, n, bufsizes = shard
+    P = core.Part()
+    hdr = ref.isa(icvn, *d)
+    for body in bodies(d, n, first):
+        text = hdr + body
+        toks, _ = ref.tokenize(text)
+        if any(t.murky for t in toks):
+            continue
+        nseg = len([t for t in toks if t.id is not None])
+        for bs in bufsizes:
+            for k in range(1, nseg + 1):
+                v, _ = run_one(text, bs, resume_at=k)
+                P.n += 1
+                P.out('resume|%d' % min(k, 3))
+                for key, msg in (v or []):
+                    P.bad(key, {'text': text, 'bufsize': bs, 'resume_at': k}, msg)
     return P
 
 
@@ -360,12 +395,15 @@ def run(R):
     wsh = [(d, icvn, span, p, 8, T) for d in (std, ('\n', '|', '>')) for icvn in (['00401', '00501'] if T else ['00401']) for p in range(8)]
     R.pmap(work_windows, wsh)
     R.pmap(work_isa, [(d, icvn, 3 if T else 2) for d in triples(T) for icvn in ('00401', '00501')])
+    nR = 5 if T else 4
+    R.pmap(work_resume, [(std, '00401', first, nR, [None, 3]) for first in [None] + alphabet(std)])
     R.pmap(work_kinds, [(std, '00401', 4 if T else 3), (('!', '|', '>'), '00501', 3)])
     R.bounds = {'A': 'all bodies of length <= %d over {A,1,ele,sub,seg,LF,CR,SP}, both versions, buffer 8192' % nA,
                 'B': 'all bodies <= %d x buffer sizes {1,2,3,5,8} x every read schedule with <= %d short reads (+ one-char and short-by-one schedules)' % (nB, devB),
                 'C': '%d delimiter triples x all bodies <= %d x buffer {8192,3}' % (len(triples(T)) - 1, nC),
                 'windows': 'every character of 6 tails at every offset -%d..+%d around 106+8192 and 106+2*8192, incl. a segment longer than the buffer' % (span, span),
                 'isa fields': '%d delimiter triples x 2 versions x 14 headers with the component separator inside ISA02/04/06/08/09 x all bodies <= %d (+ the header repeated mid-stream) x {default, buffer 3, one-char reads}' % (len(triples(T)), 3 if T else 2),
+                'resume': 'all bodies <= %d x buffer {8192, 3} x every k: the consumer leaves its loop after k segments and iterates the same reader again' % nR,
                 'source kinds': 'StringIO, open text file, path string on all CR-free bodies <= %d' % (4 if T else 3)}
     R.assumptions = ['pieces whose leading blanks are followed by CR/LF, and blank-only pieces, are left open by the statement and are skipped (counted)',
                      'path/file source kinds are compared on CR-free texts only (text mode translates CR)',
